@@ -113,7 +113,11 @@ func gObj(o slip.Object) string {
 		}
 		return "(L " + gObjs(to) + ")"
 	case *slip.Vector:
-		return fmt.Sprintf("(Vec %s %s %s)", gObjs(to.Elements()), gET(to.ElementType()), common.GBool(to.Adjustable()))
+		fp := "None"
+		if 0 <= to.FillPtr {
+			fp = fmt.Sprintf("(Some %d)", to.FillPtr)
+		}
+		return fmt.Sprintf("(Vec %s %s %s %s)", gObjs(to.Elements()), gET(to.ElementType()), common.GBool(to.Adjustable()), fp)
 	case *slip.Array:
 		ds := make([]string, len(to.Dimensions()))
 		for i, d := range to.Dimensions() {
@@ -245,10 +249,14 @@ func (g *gen) atom() slip.Object {
 		case x < 84:
 			g.hist("atom:keyword")
 			return slip.Symbol(common.Pick(g.r, keySyms))
-		case x < 88:
+		case x < 86:
 			g.hist("atom:type-symbol")
 			return slip.Symbol(common.Pick(g.r, []string{"fixnum", "list", "vector", "symbol"}))
-		case x < 94:
+		case x < 91:
+			// an element that is a symbol is quoted in the load form (repo_fixes/C19-2)
+			g.hist("atom:symbol")
+			return slip.Symbol(common.Pick(g.r, plainSyms))
+		case x < 95:
 			g.hist("atom:nil")
 			return nil
 		default:
@@ -390,24 +398,41 @@ func (g *gen) safeValue(depth int) slip.Object {
 		}
 		return append(l, slip.Tail{Value: tl})
 	case x < 66:
+		// empty or not, adjustable or not, with or without a fill pointer (repo_fixes/C19-3, C19-4, C19-5)
 		g.hist("kind:vector")
-		n := 1 + g.r.Intn(5)
+		n := g.r.Intn(6)
 		l := make(slip.List, n)
 		for i := range l {
 			l[i] = g.qdata(depth - 1)
 		}
-		return slip.NewVector(n, slip.TrueSymbol, nil, l, true)
+		v := slip.NewVector(n, slip.TrueSymbol, nil, l, g.r.Chance(65))
+		if n == 0 {
+			g.hist("kind:vector-empty")
+		}
+		if !v.Adjustable() {
+			g.hist("kind:vector-not-adjustable")
+		}
+		if g.r.Chance(25) {
+			g.hist("kind:vector-fill-pointer")
+			v.FillPtr = g.r.Intn(n + 1)
+		}
+		return v
 	case x < 74:
+		// dimensions of zero and arrays that are not adjustable too (repo_fixes/C19-3, C19-4)
 		g.hist("kind:array")
 		dims := []int{1 + g.r.Intn(3), 1 + g.r.Intn(3)}
 		if g.r.Chance(30) {
 			dims = append(dims, 1+g.r.Intn(2))
 		}
+		if g.r.Chance(20) {
+			g.hist("kind:array-zero-dimension")
+			dims[g.r.Intn(len(dims))] = 0
+		}
 		size := 1
 		for _, d := range dims {
 			size *= d
 		}
-		a := slip.NewArray(dims, slip.TrueSymbol, nil, nil, true)
+		a := slip.NewArray(dims, slip.TrueSymbol, nil, nil, g.r.Chance(65))
 		for i := 0; i < size; i++ {
 			a.MajorSet(i, g.qdata(depth-2))
 		}
@@ -418,7 +443,8 @@ func (g *gen) safeValue(depth int) slip.Object {
 		n := g.r.Intn(4)
 		for i := 0; i < n; i++ {
 			var k slip.Object
-			switch g.r.Intn(5) {
+			// keys of every kind Go compares by value (repo_fixes/C19-7), values of every kind (repo_fixes/C19-6)
+			switch g.r.Intn(8) {
 			case 0:
 				k = slip.Symbol(common.Pick(g.r, []string{"a", "b", "foo", "bar-baz"}))
 			case 1:
@@ -427,17 +453,27 @@ func (g *gen) safeValue(depth int) slip.Object {
 				k = slip.Fixnum(g.r.Intn(10))
 			case 3:
 				k = slip.Symbol(common.Pick(g.r, keySyms))
+			case 4:
+				g.hist("hash-key:character")
+				k = slip.Character(common.Pick(g.r, safeChars))
+			case 5:
+				g.hist("hash-key:t")
+				k = slip.True
+			case 6:
+				g.hist("hash-key:nil")
+				k = nil
 			default:
 				k = slip.DoubleFloat(2.5)
 			}
-			v := g.atom()
-			if b, ok := v.(*slip.Bignum); ok && (*big.Int)(b).IsInt64() {
-				v = slip.Fixnum(2)
+			h[k] = g.safeValue(depth - 1)
+			switch h[k].(type) {
+			case slip.List:
+				g.hist("hash-value:list")
+			case slip.Symbol:
+				g.hist("hash-value:symbol")
+			case slip.HashTable:
+				g.hist("hash-value:hash-table")
 			}
-			if g.r.Chance(20) {
-				v = slip.NewVector(2, slip.TrueSymbol, nil, slip.List{slip.Fixnum(1), slip.Symbol("a")}, true)
-			}
-			h[k] = v
 		}
 		return h
 	default:
@@ -491,6 +527,10 @@ func (g *gen) value(depth int, symOK bool) slip.Object {
 		g.hist("kind:vector")
 		n := g.r.Intn(5)
 		v := slip.NewVector(n, slip.TrueSymbol, nil, g.elems(n, depth, true), g.r.Chance(60))
+		if g.r.Chance(20) {
+			g.hist("kind:vector-fill-pointer")
+			v.FillPtr = g.r.Intn(n + 1)
+		}
 		return v
 	case x < 78:
 		g.hist("kind:array")
